@@ -2,7 +2,7 @@
 @@ source pkt crates/erbium-core/src/dns/dnspkt.rs
 @@ struct pkt Class derive(Clone,Copy,PartialEq,Eq,Structural)
 @@ const pkt CLASS_IN
-@@ struct pkt Type derive(Clone,Copy,PartialEq,Eq,Structural)
+@@ struct pkt Type derive(Clone,Copy,PartialEq,Eq,Hash,Structural)
 @@ const pkt RR_A
 @@ const pkt RR_NS
 @@ const pkt RR_CNAME
@@ -21,8 +21,8 @@
 @@ const pkt REFUSED
 @@ const pkt SERVFAIL
 @@ const pkt NXDOMAIN
-@@ struct pkt Label clone
-@@ struct pkt Domain clone
+@@ struct pkt Label derive(PartialEq,Eq,Hash) clone
+@@ struct pkt Domain derive(PartialEq,Eq,Hash) clone
 @@ struct pkt Question clone
 @@ struct pkt EdnsCode derive(PartialEq,Eq,Structural) clone
 @@ const pkt EDNS_NSID
